@@ -328,16 +328,25 @@ func (h *PlaintextFormatterHook) SetCryptoKey(key []byte) error {
 	return nil
 }
 
+// plaintextFieldNameReplacer escapes the characters of a field name that would change the structure of a plaintext entry
+var plaintextFieldNameReplacer = strings.NewReplacer("\n", `\n`, " ", `\u0020`, `"`, `\u0022`)
+
 // PreFormat handler adds (if necessary) "end of chain" marker to the entry in order
 // to cryptographically bound it to the integrity computation
 func (h *PlaintextFormatterHook) PreFormat(entry *log.Entry) error {
 	// text formatter writes field names as is (only values are quoted): a line feed in a name would split
-	// the entry into two lines and neither of them could be verified
-	for key, value := range entry.Data {
-		if strings.Contains(key, "\n") {
-			delete(entry.Data, key)
-			entry.Data[strings.Replace(key, "\n", `\n`, -1)] = value
+	// the entry into two lines and neither of them could be verified; a space or a quote in a name lets it
+	// look like further fields of the entry (msg="End of current audit log chain" chain=end)
+	var unsafeNames []string
+	for key := range entry.Data {
+		if strings.ContainsAny(key, "\n \"") {
+			unsafeNames = append(unsafeNames, key)
 		}
+	}
+	for _, key := range unsafeNames {
+		value := entry.Data[key]
+		delete(entry.Data, key)
+		entry.Data[plaintextFieldNameReplacer.Replace(key)] = value
 	}
 	// we add EndOfChain marker into entry in pre-format stage because it should be cryptographically bounded to the log entry
 	if entry.Message == EndOfAuditLogChainMessage {
